@@ -29,6 +29,30 @@ def strategy(tier):
   })
 
 
+EXHAUSTIVE_DOMAINS = {
+    'list_batches': 'one rebind batch on a list of 4 symbolic children: every combination of 1-3 entries, each an index 0..4 x '
+                    '{replace, insert, delete}, with notification on and off (quick: <=2 entries)',
+}
+
+
+def exhaustive(tier):
+  import itertools
+  item = {'$d': [['n', 9]]}
+  root = [{'$d': [['k', i], ['c', [i]]]} for i in range(4)]
+  entries = [(i, m) for i in range(5) for m in range(3)]
+
+  def gen():
+    for n_extra in ((0, 1) if tier == 'quick' else (0, 1, 2)):
+      for first in entries:
+        for extra in itertools.product(entries, repeat=n_extra):
+          for nf in (False, True):
+            yield {'roots': [root], 'ops': [{
+                'op': 'rebind_l', 't': 0, 'i': first[0], 'k': first[1], 'm': 5, 'j': None, 's': None, 'v': item, 'src': None,
+                'sv': True, 'nf': nf, 'own': False, 'mv': False,
+                'locs': [{'i': e[0], 'm': e[1], 'v': item} for e in extra]}]}
+  return {'list_batches': gen()}
+
+
 def walk_check(roots):
   """Returns (inv, detail) for the first broken invariant, or None."""
   seen = {}
